@@ -245,6 +245,21 @@ func (h *harness) registered(name string) bool {
 	return h.e.Registry.GetPID(id[:i], id[i+1:]) != nil
 }
 
+// stillRegistered: the actor itself is registered (once its successor runs under the id, the registry entry is the
+// successor's)
+func (h *harness) stillRegistered(name string) bool {
+	if !h.registered(name) {
+		return false
+	}
+	if succ := h.cfg.Actors[name].Succ; succ != "" {
+		h.mu.Lock()
+		taken := h.incs[succ] > 0
+		h.mu.Unlock()
+		return !taken
+	}
+	return true
+}
+
 type rec struct {
 	h    *harness
 	name string
@@ -597,7 +612,7 @@ func runScenario(cfg Config, sc Scenario, free int) *Result {
 		h.mu.Unlock()
 		for t, cx := range h.ctxs {
 			if _, ok := res.Done[t]; !ok && cx.Err() != nil {
-				res.Done[t] = DoneRec{At: n, Reg: h.registered(cfg.Toks[t].Target)}
+				res.Done[t] = DoneRec{At: n, Reg: h.stillRegistered(cfg.Toks[t].Target)}
 			}
 		}
 	}
@@ -746,7 +761,7 @@ func runScenario(cfg Config, sc Scenario, free int) *Result {
 			h.mu.Unlock()
 			res.Issued = append(res.Issued, st.T)
 			if cx.Err() != nil {
-				res.Done[st.T] = DoneRec{At: n, Reg: h.registered(tc.Target), Imm: true}
+				res.Done[st.T] = DoneRec{At: n, Reg: h.stillRegistered(tc.Target), Imm: true}
 			}
 		case "grant":
 			a, ok := pending[st.A]
